@@ -136,7 +136,8 @@ class C15(Property):
             "loads + table comparisons.  A load is non-trivial when the "
             "corrupted character lies before the END statement and after "
             "the first complete statement; distinct = distinct event-log "
-            "digests of runs containing such loads.")
+            "digests of runs containing such loads."
+            " Labels also use lone CR and LF CR line ends; the dialect is selected through parser=, grammar=, decoder=, both, both of different dialects, bytes or a binary stream; extra faults at the very first character and right after a dash-continued line end.")
     ASSUMPTIONS = [
         "the permitted sets are those quoted in the property text (PVL: "
         "ISO 8859-1 without 0-8, 14-31, 127-159; ODL/PDS3: 7-bit ASCII)",
